@@ -295,6 +295,7 @@ def run(ctx):
                        'values, no derivatives; the other cases are decided by the direct oracle only']
     if ctx.ensure_library():
         ctx.prove(['theories/Props/C17.v'])
+        ctx.effects_obligations()      # regenerated from the current source: see coq/obl/Eff_C17.v
     cases = gen_cases(ctx.rng, ctx.tier)
     terms, tidx = [], []
     for ci, c in enumerate(cases):
